@@ -237,6 +237,8 @@ impl<'tcx> Ctx<'tcx> {
             Rvalue::Discriminant(p) => {
                 out.push_str("[\"disc\",");
                 self.place(body, p, out);
+                out.push(',');
+                esc(&self.ty_s(p.ty(body, tcx).ty), out);
                 out.push(']');
             }
             Rvalue::Aggregate(kind, ops) => {
